@@ -126,6 +126,20 @@ def run(prop, tier):
             records.append(dict(id=rid, kind="ev", deps=sorted(c["deps"]), odeps=sorted(set(deps)), vals=vals))
             index[rid] = dict(string=s, deps=c["deps"], observed_deps=deps)
             rid += 1
+            # DivScaleFree on the real code: quotients of two names, both scaled by 2^-k (an exact operation in binary floating point)
+            t = c["tree"]
+            if (t[0] == "bin" and t[1] == "/" or t[0] == "call2" and t[1] == "sdiv") and t[2][0] == "name" and t[3][0] == "name":
+                for k_ in (20, 30, 40, 200):
+                    sc_ = 2.0 ** -k_
+                    with np.errstate(all="ignore"):
+                        a_ = np.asarray(fcn(**{n: val for n, val in (("x", xs), ("y", ys)) if n in need}), dtype=float)
+                        b_ = np.asarray(fcn(**{n: val * sc_ for n, val in (("x", xs), ("y", ys)) if n in need}), dtype=float)
+                        b1 = [float(fcn(**{n: float(val[j]) * sc_ for n, val in (("x", xs), ("y", ys)) if n in need})) for j in range(len(xs))]
+                    fin = np.isfinite(a_)
+                    for what, bb in (("array", b_), ("scalar", np.array(b1))):
+                        records.append(dict(id=rid, kind="scale", a=FX.fixseq(np.broadcast_to(a_, xs.shape)[fin]), b=FX.fixseq(np.where(np.isfinite(np.broadcast_to(bb, xs.shape)), np.broadcast_to(bb, xs.shape), 1e300)[fin])))
+                        index[rid] = dict(string=s, scale="2^-%d (%s arguments)" % (k_, what), at_env=[float(v) for v in np.broadcast_to(a_, xs.shape)[fin]][:6], scaled=[float(v) for v in np.broadcast_to(bb, xs.shape)[fin]][:6])
+                        rid += 1
     finally:
         os.chdir(cwd)
         shutil.rmtree(wd, ignore_errors=True)
